@@ -86,6 +86,18 @@ pub enum Op {
     /// initialize_tick_array / initialize_dynamic_tick_array (permissionless) for the array `off` arrays away from array 0. On an
     /// array that already exists it must change nothing: refused, or (dynamic, idempotent) accepted as a no-op.
     InitTa { off: i8, dynamic: bool, idempotent: bool },
+    /// the tick-array initialisers with a start index of `spacings` x tick spacing that is NOT a multiple of 88 x tick spacing:
+    /// must be refused (swaps only ever visit aligned arrays)
+    InitTaUnaligned { spacings: i16, dynamic: bool },
+    /// increase_liquidity naming the tick arrays with these explicit start indexes for the lower / upper bound
+    IncVia {
+        pos: u8,
+        #[serde(with = "u128_str")]
+        liq: u128,
+        lower_start: i32,
+        upper_start: i32,
+        v2: bool,
+    },
     Update { pos: u8 },
     /// reposition_liquidity_v2: move the position to [lower, upper) with the given new liquidity
     Repos {
@@ -193,7 +205,7 @@ pub fn resolve_limit(l: &Ledger, p: &PoolRef, a_to_b: bool, lim: Lim) -> u128 {
 /// Build the instruction for an op in the given state (None = op not applicable, e.g. Dec of an empty position).
 pub fn build(l: &Ledger, w: &StdWorld, op: &Op) -> Option<Instruction> {
     let pos_of = |op: &Op| match op {
-        Op::Inc { pos, .. } | Op::IncTa { pos, .. } | Op::Dec { pos, .. } | Op::Update { pos } | Op::CollectFees { pos, .. } | Op::CollectReward { pos, .. } | Op::Repos { pos, .. } => Some(*pos),
+        Op::Inc { pos, .. } | Op::IncTa { pos, .. } | Op::IncVia { pos, .. } | Op::Dec { pos, .. } | Op::Update { pos } | Op::CollectFees { pos, .. } | Op::CollectReward { pos, .. } | Op::Repos { pos, .. } => Some(*pos),
         _ => None,
     };
     if let Some(p) = pos_of(op) {
@@ -261,6 +273,30 @@ pub fn build(l: &Ledger, w: &StdWorld, op: &Op) -> Option<Instruction> {
             };
             let tas = world::swap_tick_arrays(&w.pool, st.tick_current_index, *a_to_b);
             Some(world::ix_swap(&w.pool, &w.trader, a, tas, *v2, &[]))
+        }
+        Op::InitTaUnaligned { spacings, dynamic } => Some(world::ix_init_tick_array(&w.pool, w.funder, *spacings as i32 * w.pool.tick_spacing as i32, *dynamic)),
+        Op::IncVia { pos, liq, lower_start, upper_start, v2 } => {
+            let p = &w.positions[*pos as usize].at(l);
+            let v2 = *v2 || force_v2;
+            let mut ix = world::ix_increase(p, &w.lp, *liq, u64::MAX, u64::MAX, v2);
+            let (lo, hi) = (p.ta_lower(), p.ta_upper());
+            let n = ix.accounts.len();
+            let (mut il, mut iu) = (None, None);
+            for i in (0..n).rev() {
+                if iu.is_none() && ix.accounts[i].pubkey == hi {
+                    iu = Some(i);
+                } else if il.is_none() && ix.accounts[i].pubkey == lo {
+                    il = Some(i);
+                }
+            }
+            match (il, iu) {
+                (Some(a), Some(b)) => {
+                    ix.accounts[a].pubkey = p.pool.tick_array(*lower_start);
+                    ix.accounts[b].pubkey = p.pool.tick_array(*upper_start);
+                    Some(ix)
+                }
+                _ => None,
+            }
         }
         Op::InitTa { off, dynamic, idempotent } => {
             let start = *off as i32 * w.pool.ticks_in_array();
